@@ -10,7 +10,7 @@ from __future__ import annotations
 import json
 
 from .. import runner
-from ..gen import ctrl, triggers
+from ..gen import staircase, ctrl, triggers
 from ..oracles import formats
 
 import re
@@ -115,6 +115,12 @@ def make_cases(ctx):
     }
     for cmd in triggers.CMDS:
         cases.append({"kind": "lint", "files": broken, "argv": [cmd], "targets": ["."], "id": "unparsable:%s" % cmd})
+    # every kind of lazy-ignores finding (unjustified suppressions of each pattern, an orphaned header entry, an unjustified test skip), py and ts
+    lazy = {"pkg/lazy.py": staircase.files()["st/lazy.py"],
+            "pkg/lazy.ts": "/**\n * Purpose: lazy probe\n *\n * Suppressions:\n *   - no-explicit-any: an entry nothing uses (orphaned)\n */\n\n// @ts-ignore\nconst a: number = legacy();\n"
+                           "// eslint-disable-next-line no-console\nconsole.log(a);\n"}
+    for cmd in triggers.CMDS:
+        cases.append({"kind": "lint", "files": lazy, "argv": [cmd], "targets": ["."], "id": "lazy:%s" % cmd})
     # DRY with many locations (long message)
     many = {}
     body = "".join("    v%d = a + %d\n" % (k, k) for k in range(6))
